@@ -300,6 +300,21 @@ def run_session(case: dict) -> dict:
                 except Exception as e:
                     stats["failed_builds"] += 1
                     abstract.append((k, type(e).__name__))
+            elif k == "build_interrupt":
+                chain = chain_for(op)
+                if chain is None:
+                    abstract.append((k, "skipped"))
+                    continue
+                from simkit.inject import Injector, SimFault
+
+                inj = Injector(int(op["k"]))
+                try:
+                    inj.run(DecayChainViewer, chain)
+                    abstract.append((k, "not_reached"))
+                except SimFault:
+                    stats["failed_builds"] += 1
+                    stats["interrupted_builds"] = stats.get("interrupted_builds", 0) + 1
+                    abstract.append((k, "interrupted"))
             elif k == "dot":
                 if not built:
                     abstract.append((k, "nothing"))
@@ -421,7 +436,10 @@ def gen_session(rng: random.Random, cfg: dict | None = None) -> dict:
     while builds < n:
         r = rng.random()
         if r < p_fail:
-            ops.append({"op": "build_fail", **source(), "seed": rng.getrandbits(32)})
+            if rng.random() < 0.4:
+                ops.append({"op": "build_interrupt", **source(), "k": int(10 ** rng.uniform(0.5, 3.0))})
+            else:
+                ops.append({"op": "build_fail", **source(), "seed": rng.getrandbits(32)})
         elif r < p_fail + p_dot and builds:
             ops.append({"op": "dot", "g": rng.randrange(builds)})
         elif r < p_fail + p_dot + 0.1:
